@@ -79,6 +79,27 @@ Proof.
   exists u, p, (resp devb bu). auto.
 Qed.
 
+(* what the confluence argument needs to know about a trace of a tick *)
+Record WT (roots ext : list comp) (dev : comp -> changes -> changes) (tr : list ev) : Prop := {
+  wt_gate : gate_from conns ext [] tr;
+  wt_disp : disp_ok conns t roots [] tr;
+  wt_ans_ext : forall x, answered tr x -> In x ext;
+  wt_nd : forall a, In (EDispatch a) tr -> nd_action a;
+  wt_by : answers_by dev tr
+}.
+
+Lemma run_WT roots ext st tr dev :
+  (forall c x, NoDup (keys (dev c x))) ->
+  Run conns comps t roots ext st tr -> answers_by dev tr -> WT roots ext dev tr.
+Proof.
+  intros Hwf R B. constructor.
+  - exact (run_gate conns comps t roots ext st tr R).
+  - exact (run_disp_ok conns comps t roots Hss ext st tr R (answers_by_wf dev Hwf tr B)).
+  - exact (i_ans_ext _ _ _ _ _ _ (run_inv conns comps t roots ext st tr R)).
+  - exact (run_dispatch_nd conns comps t roots ext st tr R).
+  - exact B.
+Qed.
+
 Variables roots1 roots2 : list comp.
 Hypothesis Hroots : forall c, In c roots1 <-> In c roots2.
 Variables dev1 dev2 : comp -> changes -> changes.
@@ -105,34 +126,22 @@ Proof.
   rewrite H1, H2. split; intros [r [Hr Hreach]]; exists r; (split; [apply Hroots; exact Hr | exact Hreach]).
 Qed.
 
-Lemma confluent2_aux ext1 st1 tr1 ext2 st2 tr2 :
-  Run conns comps t roots1 ext1 st1 tr1 -> Run conns comps t roots2 ext2 st2 tr2 ->
-  answers_by dev1 tr1 -> answers_by dev2 tr2 ->
+Lemma confluent_WT ext1 tr1 ext2 tr2 :
+  WT roots1 ext1 dev1 tr1 -> WT roots2 ext2 dev2 tr2 -> (forall x, In x ext1 <-> In x ext2) ->
   forall n c, (rank c < n)%nat ->
   forall a1 a2, In (EDispatch a1) tr1 -> In (EDispatch a2) tr2 ->
   act_comp a1 = c -> act_comp a2 = c -> action_equiv a1 a2.
 Proof.
-  intros R1 R2 B1 B2.
-  assert (Hx := same_extent ext1 st1 tr1 ext2 st2 tr2 R1 R2).
-  assert (G1 := run_gate conns comps t roots1 ext1 st1 tr1 R1).
-  assert (G2 := run_gate conns comps t roots2 ext2 st2 tr2 R2).
-  assert (D1 := run_disp_ok conns comps t roots1 Hss ext1 st1 tr1 R1 (answers_by_wf dev1 dev_wf1 tr1 B1)).
-  assert (D2 := run_disp_ok conns comps t roots2 Hss ext2 st2 tr2 R2 (answers_by_wf dev2 dev_wf2 tr2 B2)).
-  assert (I1 := run_inv conns comps t roots1 ext1 st1 tr1 R1).
-  assert (I2 := run_inv conns comps t roots2 ext2 st2 tr2 R2).
-  assert (N1 := run_dispatch_nd conns comps t roots1 ext1 st1 tr1 R1).
-  assert (N2 := run_dispatch_nd conns comps t roots2 ext2 st2 tr2 R2).
+  intros [G1 D1 I1 N1 B1] [G2 D2 I2 N2 B2] Hx.
   induction n as [|n IHn]; intros c Hn a1 a2 Hi1 Hi2 Hc1 Hc2; [lia|].
   destruct (in_split _ _ Hi1) as [l1 [r1 E1]]. destruct (in_split _ _ Hi2) as [l2 [r2 E2]].
   assert (A1 := disp_ok_split conns t roots1 tr1 D1 l1 a1 r1 E1).
   assert (A2 := disp_ok_split conns t roots2 tr2 D2 l2 a2 r2 E2).
   assert (H12 : forall q v, spec_inputs conns l1 c q v -> spec_inputs conns l2 c q v).
-  { apply (inputs_transfer dev1 dev2 ext1 ext2 n c (fun x => proj1 (Hx x)) tr1 tr2 l1 (EDispatch a1 :: r1) l2 r2 a2 E1 E2 Hc2 B1 B2
-             (i_ans_ext _ _ _ _ _ _ I1) G2); [|exact Hn].
+  { apply (inputs_transfer dev1 dev2 ext1 ext2 n c (fun x => proj1 (Hx x)) tr1 tr2 l1 (EDispatch a1 :: r1) l2 r2 a2 E1 E2 Hc2 B1 B2 I1 G2); [|exact Hn].
     intros u au bu Hu Hau Hbu Hcu Hcu'. apply resp_equiv2; [apply (N1 au Hau) | apply (N2 bu Hbu) | eapply IHn; eassumption]. }
   assert (H21 : forall q v, spec_inputs conns l2 c q v -> spec_inputs conns l1 c q v).
-  { apply (inputs_transfer dev2 dev1 ext2 ext1 n c (fun x => proj2 (Hx x)) tr2 tr1 l2 (EDispatch a2 :: r2) l1 r1 a1 E2 E1 Hc1 B2 B1
-             (i_ans_ext _ _ _ _ _ _ I2) G1); [|exact Hn].
+  { apply (inputs_transfer dev2 dev1 ext2 ext1 n c (fun x => proj2 (Hx x)) tr2 tr1 l2 (EDispatch a2 :: r2) l1 r1 a1 E2 E1 Hc1 B2 B1 I2 G1); [|exact Hn].
     intros u au bu Hu Hau Hbu Hcu Hcu'. symmetry. apply resp_equiv2; [apply (N1 bu Hbu) | apply (N2 au Hau) | eapply IHn; eassumption]. }
   destruct A1 as [T1 A1]. destruct A2 as [T2 A2].
   destruct a1 as [c1 t1 x|c1 t1], a2 as [c2 t2 y|c2 t2]; simpl in *; subst.
@@ -145,6 +154,18 @@ Proof.
     destruct y as [|[q0 v0] y']; [congruence|].
     apply (A1 q0 v0). apply H21. apply A2. simpl. rewrite Pos.eqb_refl. reflexivity.
   - split; reflexivity.
+Qed.
+
+Lemma confluent2_aux ext1 st1 tr1 ext2 st2 tr2 :
+  Run conns comps t roots1 ext1 st1 tr1 -> Run conns comps t roots2 ext2 st2 tr2 ->
+  answers_by dev1 tr1 -> answers_by dev2 tr2 ->
+  forall n c, (rank c < n)%nat ->
+  forall a1 a2, In (EDispatch a1) tr1 -> In (EDispatch a2) tr2 ->
+  act_comp a1 = c -> act_comp a2 = c -> action_equiv a1 a2.
+Proof.
+  intros R1 R2 B1 B2.
+  apply (confluent_WT ext1 tr1 ext2 tr2 (run_WT roots1 ext1 st1 tr1 dev1 dev_wf1 R1 B1) (run_WT roots2 ext2 st2 tr2 dev2 dev_wf2 R2 B2)
+           (same_extent ext1 st1 tr1 ext2 st2 tr2 R1 R2)).
 Qed.
 
 Theorem confluent2 ext1 st1 tr1 ext2 st2 tr2 :
